@@ -370,6 +370,10 @@ def main():
     violations = []
     known_hits = {}
     by_trace = {}
+    ext_fails = [f for f in all_fails if f.get("property") == "EXT"]
+    for f in ext_fails[:5]:
+        # clauses beyond the listed properties: the specification and the code disagree, but no listed property is at stake
+        print(f"SPEC-DRIFT ext clause={f.get('clause')} trace={os.path.basename(f.get('trace',''))} line={f.get('line')} info={json.dumps(f.get('info'))[:200]}", flush=True)
     for f in all_fails:
         if f.get("property") != pid:
             continue   # other properties' clauses evaluated alongside are reported by their own check
@@ -458,6 +462,7 @@ def main():
             "replayed_model_transitions": replayed,
             "apalache_proofs": proofs,
             "spec_drift": drift,
+            "ext_clause_failures": len(ext_fails),
             "known_findings_hit": sorted(known_hits.keys()),
             "checker_cmd": "tools/tlc.sh (TLC 1.8.0 + verif.BigOverrides) on spec/*.tla; harness/target/debug/hx" + ("; apalache-mc check (inductive invariant)" if proofs else ""),
             "trusted_base": ["TLC", "CommunityModules Json/IOUtils", "verif.BigOverrides (java.math.BigInteger)", "hx mini-runtime and projection", "tools/check.py"],
